@@ -321,7 +321,8 @@ class Parser:
             and self.__curcommand.non_deterministic_args
         )
         if condition:
-            self.__curcommand.reassign_arguments()
+            if not self.__curcommand.reassign_arguments():
+                return False
             # rewind lexer
             self.lexer.pos -= 1
             return True
